@@ -122,7 +122,8 @@ def cursor_anchor(kind, cls, meth, store, idx, bs, n, nstart, selkey):
             env = {f"self.{idx}": "idx", f"self.{bs}": "bs", "self.nb": "(4 * n)", "self.dim": "2"}
         if nstart:
             env.update({f"self.{nstart}": "n_start", "self.rar_iter_nb": "rar_iter_nb",
-                        f"self.rar_parameters['{selkey}']": "sel"})
+                        f"self.rar_parameters['{selkey}']": "sel",
+                        f"self.rar_parameters['{selkey.replace('selected_', '')}']": "cand"})        # (the number of candidates drawn per step)
         bend = inline_locals(c.args[0], f)
         out = [f"Definition gen_bend_{kind} (idx bs : Z) : Z := {zexpr(bend, env)}."]
         neff = c.args[1]
@@ -134,7 +135,7 @@ def cursor_anchor(kind, cls, meth, store, idx, bs, n, nstart, selkey):
                 i0 = one(iff, "if self.rar_parameters is not None")
                 rar_v = one(assigns(ast.Module(body=i0.body, type_ignores=[]), neff.id), "RAR n_eff")
                 plain_v = one(assigns(ast.Module(body=i0.orelse, type_ignores=[]), neff.id), "plain n_eff")
-                out.append(f"Definition gen_neff_rar_{kind} (n_start rar_iter_nb sel : Z) : Z := {zexpr(rar_v, env)}.")
+                out.append(f"Definition gen_neff_rar_{kind} (n_start rar_iter_nb sel cand : Z) : Z := {zexpr(rar_v, env)}.")
                 out.append(f"Definition gen_neff_plain_{kind} (n : Z) : Z := {zexpr(plain_v, env)}.")
             else:
                 raise Untranslatable("unexpected n_eff structure")
